@@ -33,6 +33,10 @@ func registerGen(family string, f genFn) { gens[family] = f }
 func runOp(st *State, line string) (res string) {
 	defer func() {
 		if r := recover(); r != nil {
+			if _, ok := r.(noHandle); ok {
+				res = "nohandle"
+				return
+			}
 			res = "panic"
 			if os.Getenv("HZ_DEBUG") != "" {
 				fmt.Fprintf(os.Stderr, "panic in %q: %v\n", line, r)
